@@ -166,6 +166,12 @@ impl TaskLogWriter {
                     Err(_) => return Err(()),
                 }
             }
+            // `tokio::fs::File::write` returns as soon as the data is handed to the blocking pool;
+            // wait until it is in the file, so that the range named by the frame (and, at the end,
+            // by the terminal status) can be read back by whoever receives the frame.
+            if self.file.flush().await.is_err() {
+                return Err(());
+            }
             self.bytes_stored = self.bytes_stored.saturating_add(take as u64);
         }
         if (take as u64) < chunk.len() as u64 {
